@@ -303,6 +303,54 @@ def case_exports(ctx):
     ctx.paths += 1
 
 
+def _replay_typed(name, shape, vals, dtype_name):
+    """the real transform of a boolean / integer array against the transform of the same values in float64"""
+    x = (numpy.abs(numpy.round(numpy.asarray(vals, dtype=float))) % 2).reshape(shape)
+    if not x.any():
+        x.flat[0] = 1
+    if x.all():
+        x.flat[-1] = 0
+    xt = x.astype(dtype_name)
+    a = numpy.asarray(_real_call("mod", name, xt, 0.5))
+    b = numpy.asarray(_real_call("mod", name, x.astype(float), 0.5))
+    bad = a.shape != b.shape or not numpy.allclose(a, b, rtol=1e-9, atol=1e-12)
+    return bool(bad), dict(what="%s of a %s array differs from %s of the same values in float64" % (name, dtype_name, name), x=x, got=a, want=b)
+
+
+def case_typed_input(ctx, name, shape, dtype_name):
+    """pupil masks and detector frames arrive as boolean / integer arrays: the transform of such an array is the
+    transform of the same values in float64 (no buffer may inherit the input's element type)"""
+    x = core.typed(symarr("x", shape), dtype_name)
+    xf = numpy.array([e for e in x.flat], dtype=object).reshape(shape).view(core.SA)
+    pre = []
+    for e in x.flat:
+        pre.append(z3.Or(z(e.re) == 0, z(e.re) == 1))
+    d = var("d")
+    pre.append(z(d.re) > 0)
+    ctx.encoded("aotools.fouriertransform.%s" % name)
+    ctx.bounds.update(shape=list(shape), input="0/1-valued symbolic array of dtype %s" % dtype_name, delta="symbolic > 0")
+
+    def go():
+        return numpy.asarray(_call("mod", name, x.copy(), d), dtype=object), numpy.asarray(_call("mod", name, xf.copy(), d), dtype=object)
+    paths, ex = core.run_paths(go, pre, max_paths=64)
+    ctx.explored(ex, len(paths))
+    rp = lambda m: _replay_typed(name, shape, _vals(m, x), dtype_name)
+    for pi, pth in enumerate(paths):
+        if pth.exc is not None:
+            ctx.prove("path%d: %s raises %s for a %s array" % (pi, name, type(pth.exc).__name__, dtype_name), pre + pth.pc, z3.BoolVal(False), replay=rp, axioms=False)
+            continue
+        a, b = pth.out
+        ctx.prove("path%d: %s of a %s array = %s of the same values in float64" % (pi, name, dtype_name, name), pre + pth.pc,
+                  all_eq(a, b) if a.shape == b.shape else z3.BoolVal(False), replay=rp, timeout_ms=30000, replay_on_unknown=True)
+
+
+def _vals(m, x):
+    try:
+        return [float(m(e)) for e in x.flat]
+    except Exception:
+        return [float(i % 2) for i in range(x.size)]
+
+
 def build_cases(tier):
     cases = []
     n1 = [1, 2, 3, 4, 5] if tier == "quick" else [1, 2, 3, 4, 5, 6, 7, 8]
@@ -326,6 +374,9 @@ def build_cases(tier):
     cases.append(("mod/rft1d/N=4/batch=2", case_real_1d, dict(where="mod", N=4, batch=(2,))))
     cases.append(("mod/rft1d/N=4/batch=3", case_real_1d, dict(where="mod", N=4, batch=(3,))))
     cases.append(("mod/rft2d/N=2/batch=3", case_real_2d, dict(where="mod", N=2, batch=(3,))))
+    for name, shape in [("ft2", (2, 2)), ("ift2", (2, 2)), ("ft", (4,)), ("rft2", (2, 2))] + ([] if tier == "quick" else [("ft2", (4, 4)), ("ft2", (3, 3)), ("rft", (4,)), ("ift", (3,))]):
+        for dt in ("bool", "int64"):
+            cases.append(("typed-input/%s/%s/%s" % (name, "x".join(map(str, shape)), dt), case_typed_input, dict(name=name, shape=shape, dtype_name=dt)))
     cases.append(("exports", case_exports, {}))
     return cases
 
